@@ -22,6 +22,7 @@ def dispatch (line : String) : Ans :=
   | "mgiter" :: r => handleIter2 r
   | "build" :: r => handleBuild r
   | "expect" :: r => handleExpect r
+  | "searchfp" :: r => handleSearchFp r
   | "search" :: r => handleSearch r
   | "searchchk" :: r => handleSearchChk r
   | "bot" :: r => handleBot r
